@@ -308,4 +308,10 @@ for _p in PROPS.values():
 
 # minimum number of obligations per (property, rule): about 80% of what was confirmed by hand on the tree the
 # checker was built for; a lower count with no violation means an anchor vanished (exit 2)
+import json as _json
+import os as _os
 FLOORS = {}
+_fp = _os.path.join(_os.path.dirname(_os.path.abspath(__file__)), 'floors.json')
+if _os.path.exists(_fp):
+    with open(_fp) as _fh:
+        FLOORS = _json.load(_fh)
